@@ -391,3 +391,38 @@ pub fn node_hex(a: &Allocator, n: NodePtr, limit: usize) -> String {
     let id = i.node(a, n);
     i.to_hex(id, limit)
 }
+
+/// expand a DAG into a tree without sharing (None if it would exceed `limit` nodes)
+pub fn unshare(d: &Dag, limit: usize) -> Option<Dag> {
+    let mut i = Interner::new();
+    let id = i.dag(d);
+    if i.tree_size(id) > limit as u64 {
+        return None;
+    }
+    let mut out = Dag::new();
+    // post-order expansion with an explicit stack
+    enum Op {
+        Visit(u32),
+        Build,
+    }
+    let mut st = vec![Op::Visit(d.root())];
+    let mut vals: Vec<u32> = Vec::new();
+    while let Some(op) = st.pop() {
+        match op {
+            Op::Visit(n) => match &d.n[n as usize] {
+                N::A(b, r) => vals.push(out.atom_r(b, *r)),
+                N::P(l, r) => {
+                    st.push(Op::Build);
+                    st.push(Op::Visit(*r));
+                    st.push(Op::Visit(*l));
+                }
+            },
+            Op::Build => {
+                let r = vals.pop().unwrap();
+                let l = vals.pop().unwrap();
+                vals.push(out.pair(l, r));
+            }
+        }
+    }
+    Some(out)
+}
